@@ -951,6 +951,78 @@ SIGNAL = SignalProxy()
 
 
 # ======================================================================================================
+#  scipy.spatial.cKDTree
+# ======================================================================================================
+
+import scipy.spatial as real_spatial
+
+REAL_CKDTREE = real_spatial.cKDTree
+
+
+class KNNStub(object):
+    """k nearest neighbours by Euclidean distance for symbolic data (1 feature: |x-y|; more: squared distances compared,
+    exact sqrt for the returned distances).  Ties are broken by an explicit fork (either order is a possible answer of the
+    tree); missing neighbours get index n and distance inf; k=1 output is squeezed like scipy's."""
+
+    def __init__(self, data):
+        self.data = np.asarray(data, dtype=object)
+        if self.data.ndim == 1:
+            self.data = self.data[:, None]
+        self.n = self.data.shape[0]
+
+    def query(self, x, k=1, distance_upper_bound=float('inf'), **kw):
+        _used('spatial.cKDTree.query (k-NN contract model: sort by distance with tie forks, inf/n for missing)')
+        x = np.asarray(x, dtype=object)
+        if x.ndim == 1:
+            x = x[:, None]
+        nx, nf = x.shape
+        D = np.empty((nx, k), dtype=object)
+        I = real_np.zeros((nx, k), dtype=real_np.intp)
+        for i in range(nx):
+            ds = []
+            for j in range(self.n):
+                if nf == 1:
+                    ds.append(abs(lift(x[i, 0]) - lift(self.data[j, 0])))
+                else:
+                    acc = None
+                    for f in range(nf):
+                        d_ = lift(x[i, f]) - lift(self.data[j, f])
+                        acc = d_ * d_ if acc is None else acc + d_ * d_
+                    ds.append(acc)
+            order = []
+            for j in range(self.n):
+                pos = len(order)
+                while pos > 0:
+                    other = order[pos - 1]
+                    if bool(ds[j] < ds[other]):
+                        pos -= 1
+                    elif bool(ds[j] == ds[other]) and core.ctx().choose(2, 'knn-tie') == 1:
+                        pos -= 1
+                    else:
+                        break
+                order.insert(pos, j)
+            for c in range(k):
+                if c < len(order):
+                    j = order[c]
+                    dist = ds[j] if nf == 1 else lift(ds[j]).sqrt()
+                    if bool(dist <= distance_upper_bound) if not (isinstance(distance_upper_bound, float) and math.isinf(distance_upper_bound)) else True:
+                        D[i, c] = dist
+                        I[i, c] = j
+                        continue
+                D[i, c] = float('inf')
+                I[i, c] = self.n
+        if k == 1:
+            return D[:, 0].view(SymArray), I[:, 0]
+        return D.view(SymArray), I
+
+
+def ckdtree_factory(data, *a, **kw):
+    if has_sym(data):
+        return KNNStub(data)
+    return REAL_CKDTREE(data, *a, **kw)
+
+
+# ======================================================================================================
 #  multiprocessing
 # ======================================================================================================
 
@@ -1055,7 +1127,9 @@ def installed():
         RNG.reset()
         InlinePool.log = []
         InlinePool.npools = 0
+        real_spatial.cKDTree = ckdtree_factory
         yield
     finally:
+        real_spatial.cKDTree = REAL_CKDTREE
         for mod, k, v in reversed(saved):
             setattr(mod, k, v)
